@@ -5,6 +5,7 @@ package main
 
 import (
 	"go/types"
+	"strings"
 
 	"golang.org/x/tools/go/ssa"
 )
@@ -325,6 +326,13 @@ func (m *Model) computeAllEffects() {
 // externalEffects: models of library functions that write tracked state.
 func (m *Model) externalEffects(f *ssa.Function, ef *Effects) {
 	full := f.String()
+	if strings.HasPrefix(full, "slices.SortStableFunc[") || strings.HasPrefix(full, "slices.SortFunc[") {
+		if sig := f.Signature; sig.Params().Len() > 0 {
+			if sl, ok := sig.Params().At(0).Type().Underlying().(*types.Slice); ok {
+				m.cellLeaves(sl.Elem(), ef.heap)
+			}
+		}
+	}
 	switch full {
 	case "(*strings.Builder).WriteByte", "(*strings.Builder).WriteString", "(*strings.Builder).WriteRune", "(*strings.Builder).Reset":
 		ef.heap["M$builder"] = "Str"
